@@ -40,10 +40,11 @@ fn main() {
             .to_string();
         let r = if let Some(steps) = plan.get("steps").and_then(|s| s.as_array()) {
             let cfg = plan.get("cfg").expect("schedule cfg");
+            let cap = plan.get("linkcap").and_then(|v| v.as_u64()).map(|v| v as usize);
             if pred == "default" {
-                run_schedule::<CfgDefault>(cfg, steps, detail, &mut emit)
+                run_schedule::<CfgDefault>(cfg, steps, detail, cap, &mut emit)
             } else {
-                run_schedule::<CfgRepeat>(cfg, steps, detail, &mut emit)
+                run_schedule::<CfgRepeat>(cfg, steps, detail, cap, &mut emit)
             }
         } else if pred == "default" {
             run_plan::<CfgDefault>(plan, detail, &mut emit)
